@@ -306,6 +306,9 @@ func c01Scenarios(thorough bool) []c01Scn {
 	// with the smallest configuration only -- they are where the two recorded findings show
 	s = append(s,
 		c01Scn{"S12", [][]string{{"F"}, {"E:s1", "F"}}, []string{"S"}}, // two ForceFlush calls in flight, a span ended between them
+		// a ForceFlush whose own export (batch not full, timer not due) is cut short by its context while
+		// the exporter is busy, then a normal span and flush: what the failed export carried must not come again
+		c01Scn{"S13", [][]string{{"E:s1", "Fc"}}, []string{"E:s2", "F", "S"}},
 		c01Scn{"S4", [][]string{{"E:s1"}, {"F"}, {"S"}}, nil},
 		c01Scn{"S9", [][]string{{"E:s1", "E:s2"}, {"Sc"}}, []string{"S"}},
 	)
@@ -339,6 +342,9 @@ func TestVerifC01(t *testing.T) {
 			}
 			if !thorough && (sc.name == "S4" || sc.name == "S9") && c.String() != "q1b1" {
 				continue
+			}
+			if sc.name == "S13" && !(c.faults && c.b >= 2) {
+				continue // needs a span that stays in the batch and an exporter that can be slow
 			}
 			if !thorough && sc.name == "S12" && !(c.String() == "q2b1" || c.String() == "q3b2") {
 				continue
